@@ -209,6 +209,10 @@ func (x *Exec) applyContract(c *Contract, fn *ssa.Function, sig *types.Signature
 			if strings.TrimSpace(part) == "" || strings.TrimSpace(part) == "nothing" {
 				continue
 			}
+			if strings.TrimSpace(part) == "anything" {
+				x.havocAll()
+				continue
+			}
 			x.havocLvalue(env, parseExpr(part, cl.Where))
 		}
 	}
@@ -324,6 +328,34 @@ func (x *Exec) lvalueLocs(env *SpecEnv, e ast.Expr) []lvLoc {
 		}
 		return out
 	case *ast.CallExpr:
+		if id, ok := e.Fun.(*ast.Ident); ok && id.Name == "allfield" && len(e.Args) == 2 {
+			// allfield(T, f): field f of every object of struct type T
+			t := x.resolveType(env.pkgPath, e.Args[0])
+			fid, ok2 := e.Args[1].(*ast.Ident)
+			if t == nil || !ok2 {
+				specErr("allfield(T, field): cannot resolve %s", types.ExprString(e))
+			}
+			p := x.fieldAddr(env, &PtrV{T: types.NewPointer(t), Kind: PObj, Base: tZero, Root: t}, fid.Name)
+			for _, lf := range leavesOf(pointeeType(p)) {
+				l := x.locOf(p, lf)
+				l.idx = nil
+				out = append(out, lvLoc{loc: l, leafSort: l.sort, whole: true})
+			}
+			return out
+		}
+		if id, ok := e.Fun.(*ast.Ident); ok && id.Name == "allelems" && len(e.Args) == 1 {
+			// allelems(T): the elements of every []T backing array
+			t := x.resolveType(env.pkgPath, e.Args[0])
+			if t == nil {
+				specErr("allelems(T): cannot resolve %s", types.ExprString(e))
+			}
+			for _, lf := range leavesOf(t) {
+				l := x.locOf(&PtrV{Kind: PElem, Base: tZero, Idx: tZero, Root: t}, lf)
+				l.idx = nil
+				out = append(out, lvLoc{loc: l, leafSort: l.sort, whole: true})
+			}
+			return out
+		}
 		if id, ok := e.Fun.(*ast.Ident); ok && id.Name == "fields" {
 			p := x.ptrOf(x.evalExpr(env, e.Args[0]))
 			for _, lf := range leavesOf(pointeeType(p)) {
